@@ -406,6 +406,8 @@ package geojson
 //@   ensures Nil: poly == nil ==> (geometry.polyExt(polyOf(result)) == nil && geometry.polyNHoles(polyOf(result)) == 0)
 //@   ensures Copy: poly != nil ==> (geometry.polyExt(polyOf(result)) == geometry.polyExt(poly) && polyOf(result).Holes == poly.Holes)
 //@   ensures Inv: ObjInv(result)
+//@   ensures Kind: isPolygonK(result)
+//@   ensures Poly: geometry.PolyInv(polyOf(result))
 
 //@ func Feature.Empty
 //@   props C09 C11
@@ -1140,6 +1142,8 @@ package geojson
 //@   ensures Fresh: result != nil && !old($alloc)[result]
 //@   ensures Inv: ObjInv(result)
 //@   ensures NoExtra: result.extra == nil
+//@   ensures Kind: isLineStringK(result)
+//@   ensures Line: geometry.LineInv(lineOf(result))
 //@ func IsPoint
 //@   props C05
 //@   arith order
